@@ -670,11 +670,19 @@ where
 	wallet_lock!(wallet_inst, w);
 	let label_base = "account";
 	let accounts: Vec<Identifier> = w.acct_path_iter().map(|m| m.path).collect();
+	let mut labels: Vec<String> = w.acct_path_iter().map(|m| m.label).collect();
 	let mut acct_index = accounts.len();
 	for (path, max_child_index) in found_parents.iter() {
 		// Only restore paths that don't exist
 		if !accounts.contains(path) {
-			let label = format!("{}_{}", label_base, acct_index);
+			// (with a label that is not in use: the mapping is keyed by label, so re-using
+			// one would re-point an existing account and leave its path without an account)
+			let mut label = format!("{}_{}", label_base, acct_index);
+			while labels.contains(&label) {
+				acct_index += 1;
+				label = format!("{}_{}", label_base, acct_index);
+			}
+			labels.push(label.clone());
 			let msg = format!("Setting account {} at path {}", label, path);
 			if let Some(ref s) = status_send_channel {
 				let _ = s.send(StatusMessage::Scanning(msg, 99));
